@@ -367,9 +367,11 @@ class Ev(object):
             parent = m.name.rsplit(".", 1)[0]
             if parent in w.mods and parent != m.name and not w.mods[parent].imported:
                 pass  # the parent __init__ would import siblings; order is irrelevant for analysis
-        env = {"locals": m.globals, "mod": m, "closure": None, "fname": "<module>", "toplevel": True}
         for stn in m.tree.body:
             st = w.static      # (a nested import may have advanced the static state)
+            # every path gets its own copy of the module namespace; the surviving one is written back
+            env = {"locals": dict(m.globals), "mod": m, "closure": None, "fname": "<module>", "toplevel": True,
+                   "toplevel_copy": True}
             mark = len(self.raised)
             paths = self.stmt(stn, env, st)
             dropped = self.raised[mark:]
@@ -377,11 +379,36 @@ class Ev(object):
             for (s, e, site) in dropped:
                 w.import_facts.append(("import-time raise path dropped", exc_name(e), site))
             normal = [p for p in paths if p.kind == "normal"]
+            if len(normal) > 1:
+                # paths that differ only in a condition the analysis could not fold, but leave the
+                # module namespace and the heap identical, are one import as far as later code can tell
+                sigs = {self._import_sig(p, set(st.heap)) for p in normal}
+                if len(sigs) == 1:
+                    w.import_facts.append(("import-time fork without observable difference collapsed", len(normal), self.site(stn, env)))
+                    normal = normal[:1]
             if len(normal) != 1:
                 raise AnalysisError("%s:%d: module top-level statement has %d normal paths (import must be deterministic)%s"
                                     % (m.relpath, stn.lineno, len(normal),
                                        "".join("; raises %s at %s" % (exc_name(e), (site,)) for (_, e, site) in dropped[:4])))
             w.static = normal[0].st
+            m.globals.clear()
+            m.globals.update(normal[0].val["locals"])
+
+    @staticmethod
+    def _import_sig(p, before):
+        """Namespace + heap of a path, with the objects it allocated numbered in allocation order."""
+        new = sorted(o for o in p.st.heap if o not in before)
+        ren = {o: -(i + 1) for i, o in enumerate(new)}
+
+        def rk(k):
+            if isinstance(k, tuple):
+                if len(k) == 2 and k[0] == "O" and k[1] in ren:
+                    return ("O", ren[k[1]])
+                return tuple(rk(x) for x in k)
+            return k
+        g = tuple(sorted((k, rk(v._key)) for k, v in p.val["locals"].items() if isinstance(v, V)))
+        h = tuple(sorted((ren.get(oid, oid), tuple(sorted((k, rk(v._key)) for k, v in f.items()))) for oid, f in p.st.heap.items()))
+        return (g, h)
 
     def module_global(self, m, name, st):
         """Value of a module-level name (after abstract import)."""
@@ -1250,7 +1277,7 @@ class Ev(object):
     @staticmethod
     def _cp(env):
         e2 = dict(env)
-        if not env.get("toplevel"):
+        if not env.get("toplevel") or env.get("toplevel_copy"):
             e2["locals"] = dict(env["locals"])
         return e2
 
